@@ -198,7 +198,11 @@ func RunOne(t *testing.T, h Harness, prop, tier string, sc any, cfg simrt.Config
 				res.Machinery = "race report inside the simulator:\n" + rr.text
 				continue
 			}
-			v := Violation{Sig: prop + "/race/" + rr.sig, Detail: rr.text}
+			rp := prop
+			if rph, ok := h.(interface{ RaceProperty(string) string }); ok {
+				rp = rph.RaceProperty(prop)
+			}
+			v := Violation{Sig: rp + "/race/" + rr.sig, Detail: rr.text}
 			if xx != nil {
 				xx.Viol = append(xx.Viol, v)
 			}
